@@ -425,7 +425,7 @@ func (c15) Run(t TestingT, scn json.RawMessage, tape *Tape) *Outcome {
 		if nGot > sent {
 			o.Violate("C15/extra-result", "%d results for %d forwarded events", nGot, sent)
 		}
-		for k := 0; k < nGot; k++ {
+		for k := 0; k < nGot && outs != nil; k++ { // (a consumer that never finished keeps its results)
 			r := outs["r"+strconv.Itoa(k)]
 			if k >= len(solo) {
 				break
@@ -456,7 +456,7 @@ func (c15) Run(t TestingT, scn json.RawMessage, tape *Tape) *Outcome {
 		if keepsReading && nGot != want && !(cancelledEarly && nGot < want) {
 			o.Violate("C15/failing-request-results", "request kind %s / subscribe mode %s delivered %d results, expected exactly %d", rq.Kind, sc.SubMode, nGot, want)
 		}
-		if nGot >= 1 && want == 1 && sc.SubMode != "value" {
+		if nGot >= 1 && want == 1 && sc.SubMode != "value" && outs != nil {
 			var dec struct {
 				Data   interface{}   `json:"data"`
 				Errors []interface{} `json:"errors"`
